@@ -142,6 +142,52 @@ def run(ctx):
             check_part(ctx, fn, body, fn.split("::")[-1], unwrap_some(p.end[1]), role, is_pkgname, fn_span(body))
         nones = [p for p in ret_paths(ps) if is_none(p.end[1])]
         ctx.floor("D2-ORIENT", fn, "None-returning paths", len(nones), 2)
+        # D2-EMPTY-PART: once the name is set and a '-' was found, the answer is None exactly when the part is empty, and nothing else is tested
+        #                (pkgbase: the '-' is at position 0; pkgversion: the '-' is the last byte)
+        judged = 0
+        for p in ret_paths(ps):
+            found = [c for c in p.conds() if c.term[0] == "discr" and is_call(strip_refs(c.term[1]), "str>::rfind", "str>::rsplit_once", "str>::find", "str>::split_once") and c.fact == ("eq", 1)]
+            if not found:
+                continue
+            srch = strip_refs(found[-1].term[1])
+            pos = ("field", ("downcast", srch, "Some"), 0)
+            subj = strip_refs(call_args(srch)[0])
+            nd = [c for c in p.conds() if c.term[0] != "discr"]
+
+            def is_pos(t, plus=0):
+                t = strip_refs(t)
+                if plus and isinstance(t, tuple) and t[0] == "binop" and t[1] == "Add" and const_int(t[3]) == plus:
+                    t = strip_refs(t[2])
+                elif plus:
+                    return False
+                return isinstance(t, tuple) and len(t) > 2 and t[:3] == pos
+
+            def empty_fact(c):
+                t = c.term
+                if not (c.fact[0] == "eq" and isinstance(c.fact[1], bool)):
+                    return None
+                if isinstance(t, tuple) and t[0] == "binop" and t[1] in ("Eq", "Ne"):
+                    eq = (t[1] == "Eq") == c.fact[1]
+                    for a, b in ((t[2], t[3]), (t[3], t[2])):
+                        if role == "prefix" and is_pos(a) and const_int(b) == 0:
+                            return eq
+                        if role == "suffix" and is_pos(a, 1) and is_call(strip_refs(b), "str>::len") and strip_refs(call_args(strip_refs(b))[0]) == subj:
+                            return eq
+                    return None
+                if is_call(t, "str>::is_empty") and call_args(t):
+                    ss = substr(call_args(t)[0])
+                    if ss is not None and substr_role(ss)[0] == role:
+                        return c.fact[1]
+                return None
+            facts = [empty_fact(c) for c in nd]
+            judged += 1
+            want_none = is_none(p.end[1])
+            ok = len(facts) == 1 and facts[0] is not None and facts[0] == want_none
+            ctx.check(ok, "D2-EMPTY-PART", fn, "%s-when-%s" % ("none" if want_none else "some", "empty" if want_none else "non-empty"),
+                      "%s iff the %s is %s" % ("None" if want_none else "Some(part)", fn.split("::")[-1], "empty" if want_none else "not empty"),
+                      "%s answers %s on a condition other than `the %s part is %s` (%s)" % (fn, "None" if want_none else "Some", fn.split("::")[-1], "empty" if want_none else "non-empty",
+                                                                                       "; ".join(term_str(c.term)[:60] + "=" + str(c.fact[1]) for c in nd) or "no test at all"), fn_span(body))
+        ctx.floor("D2-EMPTY-PART", fn, "paths past a found '-'", judged, 2)
 
     # ---- Dewey::matches
     DM = "dewey::Dewey::matches"
